@@ -74,6 +74,8 @@ def build(term):
     k = term[0]
     if k == 'path':
         obj = term[1]
+    elif k == 'Tbare':
+        obj = T
     elif k == 'T':
         obj = T[term[1]]
     elif k == 'Tattr':
@@ -161,6 +163,8 @@ def ev(term, target):
             return getattr(target, term[1])
         except AttributeError:
             raise F('PathAccessError')
+    if k == 'Tbare':
+        return target
     if k == 'T':
         try:
             return target[term[1]]
@@ -546,14 +550,14 @@ def run_case(case):
 
 def kinds(term):
     k = term[0]
-    if k in ('path', 'T', 'Tattr', 'S', 'fn', 'check', 'm', 'match', 'val'):
+    if k in ('path', 'T', 'Tbare', 'Tattr', 'S', 'fn', 'check', 'm', 'match', 'val'):
         return [k if k != 'fn' else 'fn:' + term[1]]
     if k == 'switch':
         return [k] + [x for a, b in term[1] for x in kinds(a) + kinds(b)]
     return [k] + [x for kid in term[1] for x in kinds(kid)]
 
 
-OK_LEAVES = [['path', 'a'], ['fn', 'ok'], ['fn', 'copy'], ['T', 'n'], ['val', 'v']]
+OK_LEAVES = [['path', 'a'], ['fn', 'ok'], ['fn', 'copy'], ['T', 'n'], ['val', 'v'], ['Tbare']]
 FAIL_LEAVES = [['path', 'zz'], ['T', 'zz'], ['Tattr', 'zz'], ['fn', 'boom'], ['fn', 'syntax'], ['fn', 'nested'], ['fn', 'nestedlog'], ['check'], ['m', 5], ['match'], ['S', 'zz'], ['path', 'a.zz']]
 
 
@@ -572,7 +576,7 @@ def outcome_of(term):
 def n_fail(term):
     """number of failing leaves inside the term (a recovered branch keeps one although the term succeeds)"""
     k = term[0]
-    if k in ('path', 'T', 'Tattr', 'S', 'fn', 'check', 'm', 'match', 'val'):
+    if k in ('path', 'T', 'Tbare', 'Tattr', 'S', 'fn', 'check', 'm', 'match', 'val'):
         return 1 if term in FAIL_LEAVES else 0
     if k == 'switch':
         return sum(n_fail(a) + n_fail(b) for a, b in term[1])
@@ -689,6 +693,8 @@ LONG_VALUES = {
     'plain-list': lambda: list(range(N_LONG)),
     'plain-tuple': lambda: tuple(range(N_LONG)),
     'list-of-long-dicts': lambda: [{'key%d' % i: i for i in range(N_LONG)}, 1],
+    'eight-levels-of-lists': lambda: [[[[[[[[1, 2]]]]]]], 0],
+    'nine-levels-mixed': lambda: {'a': [{'b': ({'c': [{'d': [{'e': 'deep'}]}]},)}]},
     'short-dict-subclass': lambda: Table(a=1),
     'short-ordereddict': lambda: collections.OrderedDict([('b', 1), ('a', 2)]),
 }
